@@ -764,8 +764,12 @@ func checkSelect(o *pbt.Outcome, a gen.Ali, sites []int) error {
 // positions of the addressed residues (the doc comment's reading, DESIGN C04) or the same positions in
 // the order the caller gave them (the statement's "addressed order")
 func checkRefSites(o *pbt.Outcome, a gen.Ali, name string, sites []int) error {
+	return checkRefSitesOn(o, build(a), a, name, sites)
+}
+
+// checkRefSitesOn judges RefSites on an existing object whose present content is a
+func checkRefSitesOn(o *pbt.Outcome, al align.Alignment, a gen.Ali, name string, sites []int) error {
 	rows := a.Rows
-	al := build(a)
 	ref, known := rowByName(rows, name)
 	p := nonGap(ref.Seq)
 	bad := !known
@@ -962,8 +966,12 @@ func genRef(t *rapid.T) refCase {
 // checkRefCoord judges RefCoordinates(name,s,n): returns whether the call was valid and whether
 // the window contains a gap of the reference
 func checkRefCoord(o *pbt.Outcome, a gen.Ali, name string, s, n int) (valid, gapInside bool, err error) {
+	return checkRefCoordOn(o, build(a), a, name, s, n)
+}
+
+// checkRefCoordOn judges RefCoordinates on an existing object whose present content is a
+func checkRefCoordOn(o *pbt.Outcome, al align.Alignment, a gen.Ali, name string, s, n int) (valid, gapInside bool, err error) {
 	rows, l := a.Rows, aliLen(a)
-	al := build(a)
 	ref, known := rowByName(rows, name)
 	p := nonGap(ref.Seq)
 	if known && sumOverflows(s, n) {
